@@ -311,15 +311,26 @@ class SNum(CantSympify):
     def __ge__(self, o):
         return self._cmp(o, operator.ge)
 
+    def _np_mixed(self, o):
+        """a float compared with a *NumPy* integer: NumPy converts the integer to a double first (Python compares exactly)"""
+        a, b = self.v, as_v(o)
+        import numpy as _np
+        ta, tb = tag_of(self), (tag_of(o) if is_proxy(o) else type(o))
+        if a.kind == "float" and b.kind == "int" and isinstance(tb, type) and issubclass(tb, _np.integer):
+            b = T.V("float", T.to_f64(b.re))
+        elif b.kind == "float" and a.kind == "int" and isinstance(ta, type) and issubclass(ta, _np.integer):
+            a = T.V("float", T.to_f64(a.re))
+        return a, b
+
     def __eq__(self, o):
         if not is_number(o):
             return False
-        return SBool(T.eq(self.v, as_v(o)))
+        return SBool(T.eq(*self._np_mixed(o)))
 
     def __ne__(self, o):
         if not is_number(o):
             return True
-        return SBool(z3.Not(T.eq(self.v, as_v(o))))
+        return SBool(z3.Not(T.eq(*self._np_mixed(o))))
 
     # -- attributes the real code reads
     @property
